@@ -5,6 +5,8 @@ A case is a tuple (kind, ...):
   ('text',     files, path, parts, minP)          saveAsTextFile(parts) to `path`, then textFile(path, minP)
   ('textwhole', files, path, parts, minP)         saveAsTextFile(parts) to `path`, then wholeTextFiles(path, minP)
   ('pickle',   files, path, parts, minP, table)   saveAsPickleFile / pickleFile; table = [(objects, stdlib pickle bytes)]
+  ('ctext',    files, path, parts, minP, cfg)     as 'text', but the save runs on Context(pool=ThreadPoolExecutor(n));
+  ('cpickle',  files, path, parts, minP, table, cfg)   cfg = (pool size, max_retries or None, forced overlap, upstream barrier)
   ('read',     files, path, minP, meta)           textFile over files written by the harness
   ('whole',    files, path, minP, meta)           wholeTextFiles
   ('binfiles', files, path, minP, meta)           binaryFiles
@@ -32,12 +34,15 @@ import pickle
 import shutil
 import struct
 import tarfile
+import threading
 import zipfile
+from concurrent.futures import ThreadPoolExecutor
 
 from common.coqlit import Err
 
 from pysparkling import Context
 from pysparkling.fileio import codec as ps_codec
+from pysparkling.fileio.fs import local as ps_local
 
 ID = 'C08'
 KERNELS = ['Gen/Codecs.v: file_endings', 'Gen/Codecs.v: get_codec_name', 'Gen/Codecs.v: text_codec_suffix',
@@ -45,7 +50,7 @@ KERNELS = ['Gen/Codecs.v: file_endings', 'Gen/Codecs.v: get_codec_name', 'Gen/Co
            'Gen/Codecs.v: text_line', 'Gen/Codecs.v: chunkers', 'Gen/Parallelize.v: par_take',
            'Gen/Parallelize.v: par_single']
 SHARD = 80
-RULE = ('savers: every extension of the property (none .gz .bz2 .xz .lzma .zip .tar .tar.gz .tar.bz2, plus .txt and an '
+RULE = ('concurrency: multi-partition saves on thread pools (sizes 2,3,4,8; forced overlap inside Local.dump, upstream barrier, max_retries default and 1) judged against the sequential model; savers: every extension of the property (none .gz .bz2 .xz .lzma .zip .tar .tar.gz .tar.bz2, plus .txt and an '
         'upper-case extension) x 1..5 partitions (exhaustive shapes incl. empty partitions and the empty data set, explicit '
         'partition contents via Context._parallelize_partitions and the public parallelize) x string lists over '
         'ASCII / Unicode (2-, 3-, 4-byte utf8, boundary code points) / non-breaking whitespace / empty-string alphabets / '
@@ -226,6 +231,78 @@ def _reclen(a):
     return ('>' if be else '<') + FMT[w]
 
 
+class _Gate:
+    """Makes the tasks of one wave overlap: every worker thread that passes waits for the others."""
+
+    def __init__(self, parties, timeout=0.5):
+        self.barrier = threading.Barrier(parties) if parties > 1 else None
+        self.timeout = timeout
+
+    def __call__(self):
+        if self.barrier is None or threading.current_thread() is threading.main_thread():
+            return
+        try:
+            self.barrier.wait(self.timeout)
+        except threading.BrokenBarrierError:
+            pass
+
+
+class _IoProxy:
+    """Stands in for the `io` module inside pysparkling.fileio.fs.local: a file opened for writing by a worker
+    thread is handed out only when the other tasks of the wave have opened theirs too (all of them are then
+    inside Local.dump at the same time)."""
+
+    def __init__(self, real, gate):
+        self._real = real
+        self._gate = gate
+
+    def __getattr__(self, name):
+        return getattr(self._real, name)
+
+    def open(self, file, mode='r', *args, **kwargs):
+        f = self._real.open(file, mode, *args, **kwargs)
+        if 'w' in mode:
+            self._gate()
+        return f
+
+
+def concurrent_save(s, case):
+    """Run the saver of a 'ctext' / 'cpickle' case on a thread pool; re-read sequentially."""
+    kind, files, path, parts, minp = case[:5]
+    size, retries, forced, upstream = case[-1]
+    rp = s.real_path(path)
+    absolute = path.startswith(BASE)
+    parties = max(1, min(size, len(parts)))
+    real_io = ps_local.io
+    with ThreadPoolExecutor(size) as pool:
+        sc = Context(pool=pool) if retries is None else Context(pool=pool, max_retries=retries)
+        data = [fresh(p) for p in parts] if kind == 'cpickle' else parts
+        rdd = sc._parallelize_partitions([list(p) for p in data])  # pylint: disable=protected-access
+        if upstream:
+            gate_up = _Gate(parties)
+
+            def wait_for_the_others(it):
+                xs = list(it)
+                gate_up()
+                return xs
+            rdd = rdd.mapPartitions(wait_for_the_others)
+        try:
+            if forced:
+                ps_local.io = _IoProxy(real_io, _Gate(parties))
+            if kind == 'ctext':
+                rdd.saveAsTextFile(rp)
+            else:
+                rdd.saveAsPickleFile(rp)
+        finally:
+            ps_local.io = real_io
+    listing = s.listing(absolute)
+    if kind == 'ctext':
+        back = Context().textFile(rp, minp).glom().collect()
+    else:
+        back = Context().pickleFile(rp, minp).glom().collect()
+    return (listing, [list(p) for p in back])
+
+
 def impl(case):
     kind = case[0]
     if kind == 'codec':
@@ -240,6 +317,8 @@ def impl(case):
             sc = Context()
             rp = s.real_path(path)
             absolute = path.startswith(BASE)
+            if kind in ('ctext', 'cpickle'):
+                return concurrent_save(s, case)
             if kind == 'text':
                 parts, minp = case[3], case[4]
                 _rdd(sc, parts).saveAsTextFile(rp)
@@ -309,7 +388,9 @@ def _below(name, path):
 
 def _oracle_save(case, result, what):
     kind, files, path, parts, minp = case[:5]
-    site = 'saveAsTextFile' if kind in ('text', 'textwhole') else 'saveAsPickleFile'
+    conc = kind in ('ctext', 'cpickle')
+    kind = {'ctext': 'text', 'cpickle': 'pickle'}.get(kind, kind)
+    site = ('concurrent:' if conc else '') + ('saveAsTextFile' if kind in ('text', 'textwhole') else 'saveAsPickleFile')
     pre = {n for n, _ in files}
     if isinstance(result, Err):
         if result.name == 'FileAlreadyExistsException' and any(_below(n, path) for n in pre):
@@ -338,8 +419,22 @@ def _oracle_save(case, result, what):
         if not _same(_flat(back), _flat(parts)):
             return (f'pickleFile:roundtrip:ext={ext or "none"}',
                     f'{path!r} partitions={len(parts)} minPartitions={minp}: wrote {_flat(parts)!r}, read {_flat(back)!r}')
+    data = [(n, c) for n, c in listing if n not in pre and _below(n, path) and not n.endswith('/_SUCCESS')]
+    if conc:
+        # tasks that write at the same time must not disturb each other: every part file holds exactly its partition
+        chunks = [_flat(parts)] if len(parts) == 1 else parts
+        if len(data) != len(chunks):
+            return (f'{site}:part-files', f'{path!r}: {len(chunks)} partitions but data files {[n for n, _ in data]!r}')
+        for (n, c), chunk in zip(data, chunks):
+            if isinstance(c, Err):
+                return (f'{site}:invalid-stream:ext={ext or "none"}', f'data file {n!r} does not decode ({c.name})')
+            try:
+                got = c.decode('utf8').splitlines() if kind == 'text' else pickle.loads(c)
+            except Exception as e:  # pylint: disable=broad-except
+                return (f'{site}:part-content', f'data file {n!r} is unreadable: {type(e).__name__}')
+            if not _same(list(got), list(chunk)):
+                return (f'{site}:part-content', f'data file {n!r} holds {got!r}, its partition is {chunk!r}')
     if ext:
-        data = [(n, c) for n, c in listing if n not in pre and _below(n, path) and not n.endswith('/_SUCCESS')]
         for n, c in data:
             if std_kind(n) is None:
                 return (f'{site}:data-file-without-compression-extension:ext={ext}',
@@ -360,8 +455,10 @@ def _resolved(files, path):
 
 def oracle(case, result):
     kind = case[0]
-    if kind == 'text':
+    if kind in ('text', 'ctext'):
         return _oracle_save(case, result, 'textFile')
+    if kind == 'cpickle':
+        return _oracle_save(case, result, 'pickleFile')
     if kind == 'textwhole':
         return _oracle_save(case, result, 'wholeTextFiles')
     if kind == 'pickle':
@@ -421,7 +518,7 @@ def oracle(case, result):
 
 def nontrivial(case, result):
     kind = case[0]
-    if kind in ('text', 'pickle', 'textwhole'):
+    if kind in ('text', 'pickle', 'textwhole', 'ctext', 'cpickle'):
         return len(_flat(case[3])) > 0 and not isinstance(result, Err)
     if kind == 'codec':
         return '.' in case[1]
@@ -430,7 +527,7 @@ def nontrivial(case, result):
 
 def kind(case):
     k = case[0]
-    if k in ('text', 'pickle', 'textwhole'):
+    if k in ('text', 'pickle', 'textwhole', 'ctext', 'cpickle'):
         return f'{k}:{_ext_of(case[2]) or "none"}:p{len(case[3])}'
     if k == 'records':
         a = case[3]
@@ -636,6 +733,30 @@ def edge_shape_cases(rng, tier):
     return cases
 
 
+def concurrency_cases(rng, tier):
+    """Multi-partition saves on thread pools.  cfg = (pool size, max_retries or None, forced overlap inside
+    Local.dump, barrier in an upstream mapPartitions).  Partitions have pairwise different contents and lengths."""
+    cases = []
+    n = 0
+    for ext in ('', '.gz', '.bz2', '.zip', '.tar.gz', '.txt', '.xz'):
+        for size in (2, 3, 4, 8):
+            for retries in (None, 1):
+                for forced, upstream in ((True, False), (True, True), (False, True)):
+                    n += 1
+                    if tier == 'quick' and (n % 4 or (not forced and n % 8)):
+                        continue
+                    n_parts = size * rng.choice([1, 1, 2])
+                    parts = [[f'p{i}:{gen_string(rng, ASCII)}' * rng.randint(1, 3) for _ in range(rng.randint(1, 4) + i % 3)]
+                             for i in range(n_parts)]
+                    cfg = (size, retries, forced, upstream)
+                    if n % 3:
+                        cases.append(('ctext', [], gen_target(rng, ext), parts, rng.choice([None, 3]), cfg))
+                    else:
+                        objs = [[(i, x) if j % 2 else x for j, x in enumerate(p)] for i, p in enumerate(parts)]
+                        cases.append(('cpickle', [], gen_target(rng, ext), objs, None, pickle_table(objs), cfg))
+    return cases
+
+
 def gen_text_content(rng):
     alpha = ASCII + UNI + SPACE + SPECIAL
     pieces = []
@@ -766,6 +887,7 @@ def generate(rng, tier):
     cases += save_cases(rng, tier)
     cases += special_cases(rng, tier)
     cases += edge_shape_cases(rng, tier)
+    cases += concurrency_cases(rng, tier)
     cases += read_cases(rng, tier)
     cases += record_cases(rng, tier)
     cases += codec_cases(rng, tier)
@@ -774,12 +896,16 @@ def generate(rng, tier):
 
 def shrink_candidates(case):
     k = case[0]
-    if k in ('text', 'pickle', 'textwhole'):
+    if k in ('text', 'pickle', 'textwhole', 'ctext', 'cpickle'):
         files, path, parts, minp = case[1:5]
 
         def mk(ps, mp=minp, fl=files):
             if k in ('text', 'textwhole'):
                 return (k, fl, path, ps, mp)
+            if k == 'ctext':
+                return (k, fl, path, ps, mp, case[-1])
+            if k == 'cpickle':
+                return (k, fl, path, ps, mp, pickle_table(ps), case[-1])
             return (k, fl, path, ps, mp, pickle_table(ps))
         if files:
             yield mk(parts, fl=[])
@@ -817,3 +943,25 @@ def shrink_candidates(case):
                     for new in cands:
                         m = meta[:i] + [(nm, new)] + meta[i + 1:]
                         yield (k, [(n, framed(new)) if n == nm else (n, c) for n, c in files], path, a, m)
+
+
+def extra_checks(rng, tier, workdir):
+    """Oracle-only: large multi-partition saves on thread pools WITHOUT instrumentation (natural overlap of the
+    writes; a barrier in an upstream mapPartitions makes the tasks start together).  Too large for the
+    correspondence (the model would only repeat the sequential result)."""
+    trials = 1 if tier == 'quick' else 4
+    lines = 1500 if tier == 'quick' else 4000
+    for ext in ('', '.gz'):
+        for size in ((8,) if tier == 'quick' else (2, 4, 8)):
+            for retries in (None, 1):
+                for t in range(trials):
+                    n_parts = 8
+                    parts = [[f'partition {p:02d} line {i:06d} ' + 'x' * (40 + p) for i in range(lines + 17 * p)]
+                             for p in range(n_parts)]
+                    case = ('ctext', [], f'{BASE}/big{t}{ext}', parts, None, (size, retries, False, True))
+                    r = impl(case)
+                    o = oracle(case, r)
+                    if o is not None:
+                        yield (o[0] + ':large', f'8 partitions x ~{lines} lines on a pool of {size}, max_retries={retries}, '
+                               f'ext={ext!r}', o[1][:400], None)
+                        return
